@@ -10,7 +10,9 @@ Line protocol of the Tls area (C17).
                                         TLS client is presented (`c<fp>` / `D` default / `N` none)
   add <fp> <exp> <names>                add_certificate   (names: `_` | hex,hex,…  `-` = "")
   addbad                                add_certificate with an unparsable PEM
-  rm <fp>                               remove_certificate
+  rm <fpref>                            remove_certificate (RemoveCertificate.fingerprint decoded first)
+  <fpref> = <id>[:L|U|M] hex text of certificate id in lower/UPPER/mixed case (same bytes),
+            x:e empty text (decodes to the empty fingerprint), x:o odd length, x:n / x not hex
   repl <old|x> <fp> <exp> <names>       replace_certificate (`x` = unparsable old fingerprint)
   replbad <old|x>                       replace_certificate with an unparsable new PEM
   replsplit <old|x> <fp> <exp> <names>  the two halves of replace_certificate with a probe between
@@ -56,8 +58,21 @@ def parseNames (w : String) : Option (List (List Nat)) :=
   if w = "_" then some []
   else (w.splitOn ",").mapM hexToBytes
 
+/-- an id nobody has: the empty fingerprint (`hex::decode("")` succeeds) -/
+def emptyFp : Nat := 4294967295
+
+/-- a fingerprint token `<id>[:L|U|M]` (the text is lower / upper / mixed-case hex of
+    certificate `id`: the same decoded bytes) or `x[:e|o|n]` (`e` = empty text = the
+    empty fingerprint; `o` odd length, `n` not hex, bare `x`: does not decode).
+    `some none` = the text does not decode. -/
 def parseOld (w : String) : Option (Option Nat) :=
-  if w = "x" then some none else w.toNat?.map some
+  match w.splitOn ":" with
+  | ["x"] => some none
+  | ["x", "e"] => some (some emptyFp)
+  | ["x", _] => some none
+  | [n] => n.toNat?.map some
+  | [n, _] => n.toNat?.map some
+  | _ => none
 
 def parseCert (fp e ns : String) : Option Cert :=
   match fp.toNat?, e.toInt?, parseNames ns with
@@ -101,8 +116,9 @@ def stepLine (d : D) (line : String) : D × List String :=
       | none => (d, ["bad-op"])
     | ["addbad"] => doOp d .addInvalid
     | ["rm", fp] =>
-      match fp.toNat? with
-      | some fp => doOp d (.remove fp)
+      match parseOld fp with
+      | some (some fp) => doOp d (.remove fp)
+      | some none => doOp d .removeInvalid
       | none => (d, ["bad-op"])
     | "repl" :: old :: fp :: e :: ns :: _ =>
       match parseOld old, parseCert fp e ns with
